@@ -777,3 +777,95 @@ pub mod pipe {
         pipe.exchange(timeout).await
     }
 }
+
+pub mod metrics {
+    use super::ctx::Ctx;
+    pub use crate::metrics::verif_hooks::Snapshot;
+
+    pub fn snapshot(ctx: &Ctx) -> Snapshot {
+        crate::metrics::verif_hooks::snapshot(&ctx.0.metrics)
+    }
+
+    pub fn collect(ctx: &Ctx) -> String {
+        crate::metrics::verif_hooks::collect(&ctx.0.metrics)
+    }
+}
+
+/// The real UDP multiplexer (udp_pipe::DuplexPipe + udp_forwarder::make_multiplexer) between a
+/// scripted client side and real outbound sockets
+pub mod udp {
+    use super::ctx::Ctx;
+    use crate::datagram_pipe::{self, DuplexPipe as _};
+    use crate::{downstream, forwarder, log_utils, udp_forwarder, udp_pipe};
+    use async_trait::async_trait;
+    use bytes::Bytes;
+    use std::io;
+    use std::net::SocketAddr;
+    use std::time::Duration;
+    use tokio::sync::mpsc;
+
+    pub struct Datagram {
+        pub source: SocketAddr,
+        pub destination: SocketAddr,
+        pub payload: Vec<u8>,
+    }
+
+    struct ClientSource(mpsc::Receiver<Datagram>);
+    struct ClientSink(mpsc::UnboundedSender<Datagram>);
+
+    #[async_trait]
+    impl datagram_pipe::Source for ClientSource {
+        type Output = downstream::UdpDatagram;
+        fn id(&self) -> log_utils::IdChain<u64> {
+            log_utils::IdChain::empty()
+        }
+        async fn read(&mut self) -> io::Result<downstream::UdpDatagram> {
+            match self.0.recv().await {
+                None => Err(io::Error::from(io::ErrorKind::UnexpectedEof)),
+                Some(d) => Ok(downstream::UdpDatagram {
+                    meta: downstream::UdpDatagramMeta {
+                        source: d.source,
+                        destination: d.destination,
+                        app_name: None,
+                    },
+                    payload: Bytes::from(d.payload),
+                }),
+            }
+        }
+    }
+
+    #[async_trait]
+    impl datagram_pipe::Sink for ClientSink {
+        type Input = forwarder::UdpDatagram;
+        async fn write(&mut self, d: forwarder::UdpDatagram) -> io::Result<datagram_pipe::SendStatus> {
+            let _ = self.0.send(Datagram {
+                source: d.meta.source,
+                destination: d.meta.destination,
+                payload: d.payload.to_vec(),
+            });
+            Ok(datagram_pipe::SendStatus::Sent)
+        }
+    }
+
+    /// Runs until the multiplexer terminates (an error, or the client side was closed)
+    pub async fn run_multiplexer(
+        ctx: &Ctx,
+        from_client: mpsc::Receiver<Datagram>,
+        to_client: mpsc::UnboundedSender<Datagram>,
+        timeout: Duration,
+        metrics: impl Fn(bool, usize) + Send + Sync,
+    ) -> io::Result<()> {
+        let (shared, source, sink) =
+            udp_forwarder::make_multiplexer(ctx.0.clone(), log_utils::IdChain::empty())?;
+        let mut pipe = udp_pipe::DuplexPipe::new(
+            (
+                Box::new(ClientSource(from_client)),
+                Box::new(ClientSink(to_client)),
+            ),
+            (shared, source, sink),
+            move |dir, n| metrics(dir == crate::pipe::SimplexDirection::Incoming, n),
+            timeout,
+        );
+        pipe.exchange().await
+    }
+}
